@@ -167,8 +167,12 @@ def scenario(case):
     if case.get("short_reads"):
         # a backend may return fewer bytes than asked for before the end of the file ("read some data")
         spy.read_cap = case["short_reads"]
+    when = {}
+    if case.get("mtime") is not None:
+        # entries last modified long ago (the LIST fallback then prints the year form); "now" is fixed as well
+        when = {"mtime": case["mtime"], "epoch0": case["now"]}
     rig = Rig(tree=SERVER_TREE if op in ("upload", "upload-seq") else None, spy=spy,
-              server_kwargs={"block_size": 7, "encoding": encoding})
+              server_kwargs={"block_size": 7, "encoding": encoding}, **when)
     w = rig.world
     a = w.aioftp
     if fallback:
@@ -219,7 +223,7 @@ def scenario(case):
         else:
             # remote tree: /w/src (+ /keep); download / list / remove
             remote = {"w": {"src": payload}, "keep": {"k": b"K"}}
-            backends.populate_memory(rig.server, remote)
+            backends.populate_memory(rig.server, remote, mtime=case.get("mtime"))
             if op == "download":
                 populate_client(client.path_io, "/", {"lkeep": {"k": b"LK"}})
                 before = snapshot_client(client.path_io)
@@ -380,6 +384,14 @@ def build_items(tier):
                 cases.append({"op": op, "kind": kind, "tree": tree, "dest": dest, "write_into": False, "cwd": "/",
                               "block": 8192, "fallback": fallback, "encoding": "latin-1",
                               "names": {"a": "é", "b": "å b"}})
+    # old entries on LIST-only servers: modification times on a leap day, New Year's Eve, the epoch, the far future
+    for kind, tree in sources:
+        if kind != "dir" or count_nested(tree) > 3:
+            continue
+        for mtime in (1709208000, 1704067199, 86400 * 400, 4102444800 - 86400, 951825600):
+            for op, dest in (("download", "x"), ("list", "abs"), ("remove", ""), ("upload", "x")):
+                cases.append({"op": op, "kind": kind, "tree": tree, "dest": dest, "write_into": False, "cwd": "/",
+                              "block": 8192, "fallback": True, "mtime": mtime, "now": 1748736000})
     # backends that return short reads (legal for AbstractPathIO.read) on both sides
     for kind, tree in sources:
         if kind == "dir" and count_nested(tree) > 3:
@@ -404,6 +416,7 @@ def run(tier, seed, t0):
     part = report.merge_all(report.pmap(work, items))
     bounds = {"sources": nsrc, "max_nodes": 4, "names": ["a", "b"], "destinations": DESTS, "write_into": [False, True],
               "remote_cwd": ["/", "/w"], "block_sizes": [1, 8192], "servers": ["MLSD", "LIST fallback"], "encodings": ["utf-8", "latin-1 with non-ASCII names (trees <= 3 nodes)"],
+              "old_entries": "LIST-only server, entries dated 2024-02-29, 2023-12-31 23:59:59, 1971, 2099, 2000-02-29 seen from 2025-06-01",
               "short_reading_backends": "read() capped at 1 or 3 bytes on the client's and the server's backend (trees <= 3 nodes)",
               "ops": ["upload", "download", "list(recursive)", "remove",
                       "upload of the same relative destination from three working directories on one connection"]}
